@@ -612,6 +612,7 @@ def run_verus(lines, workdir, name, rlimit=30, threads=8, extra=(), wall=None):
             li = s.get('line_start', 0)
             origin = lines[li - 1].origin if 0 < li <= len(lines) else None
             where.append({'line': li, 'label': s.get('label'), 'text': (s.get('text') or [{}])[0].get('text', '').strip(),
+                          'line_text': lines[li - 1].text if 0 < li <= len(lines) else '',
                           'origin': origin, 'primary': bool(s.get('is_primary'))})
         rec = {'message': msg, 'where': where, 'rendered': d.get('rendered', '')}
         li = prim[0].get('line_start', 0) if prim else 0
